@@ -37,13 +37,26 @@ func (m *Middleware) VerifFlushRemovals() { m.cache.VerifFlushRemovals() }
 
 // VerifStoreIndex / VerifStoreSet run the two halves of store separately so a harness can
 // interleave them with other operations (the index entry is added before the cache write).
-func (m *Middleware) VerifStoreIndex(key string, resp *Response) {
+// Like store they hold the key's store stripe (and exclude Clear) from the first half to the
+// end of the second; VerifStoreIndex reports false, doing nothing, when the stripe is busy.
+func (m *Middleware) VerifStoreIndex(key string, resp *Response) bool {
+	if !m.clearMu.TryRLock() {
+		return false
+	}
+	mu := &m.storeMu[storeStripe(key)]
+	if !mu.TryLock() {
+		m.clearMu.RUnlock()
+		return false
+	}
 	if path := m.pathExtract(key); path != "" {
 		m.patternIdx.addKey(path, key, resp)
 	}
+	return true
 }
 
 func (m *Middleware) VerifStoreSet(key string, resp *Response, ttl time.Duration) error {
+	defer m.clearMu.RUnlock()
+	defer m.storeMu[storeStripe(key)].Unlock()
 	if err := m.cache.Set(key, resp, ttl); err != nil {
 		if path := m.pathExtract(key); path != "" {
 			m.patternIdx.removeKeyByIdentity(path, key, resp)
@@ -51,6 +64,38 @@ func (m *Middleware) VerifStoreSet(key string, resp *Response, ttl time.Duration
 		return err
 	}
 	return nil
+}
+
+// VerifStore is the real store.
+func (m *Middleware) VerifStore(key string, resp *Response, ttl time.Duration) error {
+	return m.store(key, resp, ttl)
+}
+
+// VerifHoldCacheDrain takes or releases every drain token of the backing cache, so that a cache write blocks.
+func (m *Middleware) VerifHoldCacheDrain(hold bool) {
+	for i := 0; i < m.cache.VerifShards(); i++ {
+		m.cache.VerifHoldDrain(i, hold)
+	}
+}
+
+// VerifIndexIdentity returns the response identity the path index records for key.
+func (m *Middleware) VerifIndexIdentity(key string) (*Response, bool) {
+	path := m.pathExtract(key)
+	if path == "" {
+		return nil, false
+	}
+	m.patternIdx.mu.RLock()
+	defer m.patternIdx.mu.RUnlock()
+	node := m.patternIdx.root
+	for _, seg := range normalizePath(path) {
+		next, ok := node.children[seg]
+		if !ok {
+			return nil, false
+		}
+		node = next
+	}
+	id, ok := node.keys[key]
+	return id, ok
 }
 
 // VerifDeleteKey removes one key from the backing cache (as an eviction or expiry would).
